@@ -142,7 +142,7 @@ def run(idx, rep, tier):
                     continue
                 for x in wrong:
                     key = (x, shape_sig(cfg))
-                    b = bad.setdefault(key, {"n": 0, "witness": repr(cfg), "claims": sorted(claims), "loc": f"{rule.module.rel}:{ret.lineno}",
+                    b = bad.setdefault(key, {"n": 0, "witness": repr(cfg), "claims": sorted(claims), "loc": f"{rule.module.rel}:{getattr(ret, '_src_line', ret.lineno)}",
                                              "ret": ast.unparse(ret.value)[:60]})
                     b["n"] += 1
         construct = rule.role
